@@ -455,7 +455,8 @@ fn judge_fold_vs_runtime(kind: &str, idx: u64) -> CaseResult {
 fn judge_undefined(kind: &str, idx: u64) -> CaseResult {
     let exprs = [
         "1 / 0", "5 / (3 - 3)", "1 << 32", "1 << 40", "1 << -1", "1 >> 32", "65536 * 65536", "2147483647 + 1", "-2147483647 - 2", "99999999999", "0x100000000",
-        "040000000000", "2147483647 * 2", "7 / (1 / 2)",
+        "040000000000", "2147483647 * 2", "7 / (1 / 2)", "0x40000000 << 1", "0x1000000 << 8", "3 << 31", "(0x7fffffff << 1) >> 28", "-2147483647 - 1 - 1", "0 - 2147483647 - 2",
+        "2147483647 - -1", "46341 * 46341", "-46341 * 46341", "5 % 0",
     ];
     let positions = [
         "const char k = @;\nvoid main() {}\n",
@@ -556,7 +557,7 @@ impl Monitor for C10 {
         let nc = core_len();
         v.extend(split_chunks("pairs", 0, nc, nc, 200));
         v.extend(split_chunks("pairs-folded", 0, nc, nc, 200));
-        v.extend(split_chunks("undefined", 0, 14 * 8, 14 * 8, 20));
+        v.extend(split_chunks("undefined", 0, 24 * 8, 24 * 8, 20));
         v.extend(split_chunks("sizeof", 0, 1, 1, 1));
         let n = match tier {
             Tier::Quick => 60_000,
